@@ -71,6 +71,8 @@ class StochHooks(Hooks):
                     it.violate('C18.repro', {'fn': fn, 'what': 'repeat'},
                                '%s with the same arguments and seed %s returned a different frame the second time' % (fn, sd), i)
             else:
+                if tag.get('wide_seed'):
+                    it.probe('seed_beyond_32_bits')
                 if tag.get('distinct_expected'):
                     for other, od in seeds.items():
                         it.probe('check:differ')
@@ -99,6 +101,8 @@ class StochHooks(Hooks):
             it.probe('shot_bad_signal:%s' % method)
             if np.min(img) < 0 and np.min(img) > -1e-6 * np.max(img):
                 it.probe('shot_tiny_negative')
+            if ev.get('t', {}).get('edited_frame'):
+                it.probe('shot_frame_edited_between_calls')
             if out.ok:
                 it.violate('C18.support', {'fn': 'shot_noise', 'method': method,
                                            'what': 'negative-accepted' if np.min(img) < 0 else 'huge-accepted'},
@@ -241,7 +245,7 @@ class StochasticScenario(Scenario):
                    'seed=None (OS entropy) is never used: the simulator always passes seeds']
     must_hit = ['seeded_after_reseed', 'psd_nonsquare', 'psd_square', 'shot_bad_signal:gaussian', 'shot_bad_signal:poisson',
                 'moments:shot_poisson', 'moments:shot_gaussian', 'moments:read', 'dark_no_fpn', 'cosmic_hit', 'layout_twin',
-                'shot_tiny_negative', 'dark_rate_at_an_edge', 'pristine_process_comparison']
+                'shot_tiny_negative', 'dark_rate_at_an_edge', 'pristine_process_comparison', 'shot_frame_edited_between_calls', 'seed_beyond_32_bits']
     probe_names = must_hit + ['coldwarm_audit']
 
     # ---------------------------------------------------------------- generation
@@ -303,13 +307,35 @@ class StochasticScenario(Scenario):
                 s_ = max(0, last_seed[0] + rng.choice([1, -1, (last_seed[0] ^ 1) - last_seed[0]]))
             else:
                 # (array seeds never end in 0: numpy's SeedSequence pads with zeros, so [7, 0] IS the seed 7)
-                s_ = rng.choice([0, rng.randrange(2 ** 31), rng.randrange(100), [rng.randrange(100), rng.randrange(1, 100)]])
+                s_ = rng.choice([0, rng.randrange(2 ** 31), rng.randrange(100), [rng.randrange(100), rng.randrange(1, 100)],
+                                 last_seed[0] + 2 ** 32, last_seed[0] + 2 ** 64, 2 ** 63 + rng.randrange(100)])
             if isinstance(s_, int):
                 last_seed[0] = s_
             return s_
 
         for _ in range(n):
+            if out and out[-1].get('fn') in ('read_noise', 'power_spectrum') and isinstance(out[-1].get('k', {}).get('seed'), int) and rng.random() < 0.25:
+                # the same call with a seed that differs only beyond the low 32 (or 64) bits: a different seed, a different draw
+                d = copy.deepcopy(out[-1])
+                cnt[0] += 1
+                d['id'] = 'c%d_r%d' % (c, cnt[0])
+                d['k']['seed'] = d['k']['seed'] + rng.choice([2 ** 32, 2 ** 33, 2 ** 64, 3 * 2 ** 32])
+                d['t'] = {'distinct_expected': True, 'wide_seed': True}
+                out.append(d)
             r = rng.random()
+            if r < 0.06:
+                # one frame object through a Monte-Carlo loop: valid, then edited in place by its owner so that it is not, then valid again
+                fr = 'c%d_f%d' % (c, cnt[0] + 1)
+                cnt[0] += 1
+                out.append({'c': c, 'fn': 'np.copy', 'a': ['@' + rng.choice(['IMGG', 'IMG'])], 'id': fr})
+                m1 = rng.choice(['poisson', 'gaussian'])
+                E('shot_noise', ['@' + fr], {'method': m1, 'seed': seed()})
+                out.append({'env': 'poke', 'c': c, 'target': '@' + fr, 'pos': [rng.randint(0, 2), rng.randint(0, 2)],
+                            'value': rng.choice([-250.0, -1e-3, 9.5e18])})
+                E('shot_noise', ['@' + fr], {'method': rng.choice(['gaussian', 'gaussian', 'poisson']), 'seed': seed()}, t={'edited_frame': True})
+                out.append({'env': 'poke', 'c': c, 'target': '@' + fr, 'pos': out[-2]['pos'], 'value': 3000.0})
+                E('shot_noise', ['@' + fr], {'method': m1, 'seed': seed()})
+                continue
             if r < 0.3:
                 method = rng.choice(['poisson', 'gaussian'])
                 img = rng.choice(['FLAT', 'IMG', 'IMGL', 'FLATG', 'NEG', 'HUGE', 'HUGE2', 'IMG_F', 'IMG_T', 'NEGT', 'NEGALL']) if method == 'poisson' else \
@@ -337,7 +363,7 @@ class StochasticScenario(Scenario):
             elif r < 0.85:
                 E('power_spectrum', ['@' + rng.choice(['MQ', 'MR', 'MR'])],
                   {'pixelscale': rng.choice([1e-3, 5e-3]), 'rms': rng.choice([1e-8, 5e-8, 2e-7]), 'half_power_freq': rng.choice([2.0, 8.0]),
-                   'exp': rng.choice([2.0, 3.0]), 'seed': seed()})
+                   'exp': rng.choice([2.0, 3.0]), 'seed': seed()}, t={'distinct_expected': True})
             else:
                 shape = rng.choice([[8, 8], [6, 12], [16, 10]])
                 area = shape[0] * shape[1] * 25e-12
@@ -372,14 +398,14 @@ class StochasticScenario(Scenario):
                 continue
             c = rng.choice(runnable)
             ev = progs[c][pos[c]]
-            if pending_fault and ev['fn'] in SEEDED:
+            if pending_fault and ev.get('fn') in SEEDED:
                 ev.setdefault('t', {})['after_rng_fault'] = True
             pending_fault = False
             out.append(ev)
             pos[c] += 1
-            if ev['fn'] in SEEDED and rng.random() < 0.2:
+            if ev.get('fn') in SEEDED and rng.random() < 0.2:
                 ev.setdefault('t', {})['fresh'] = True
-            if ev['fn'] in SEEDED:
+            if ev.get('fn') in SEEDED:
                 done[c].append(ev)
             if done[c] and rng.random() < 0.15:
                 src = rng.choice(done[c])
@@ -451,6 +477,9 @@ class StochasticScenario(Scenario):
             E('rule07_dark_current', [120.0, 5e-6, 18e-6], {'shape': [4, 6], 'fpn_factor': 0, 'seed': 1})
             for mk in ('MQ', 'MR'):
                 E('power_spectrum', ['@' + mk], {'pixelscale': 1e-3, 'rms': 5e-8, 'half_power_freq': 8.0, 'exp': 3.0, 'seed': 21})
+                E('power_spectrum', ['@' + mk], {'pixelscale': 1e-3, 'rms': 5e-8, 'half_power_freq': 8.0, 'exp': 3.0, 'seed': 21 + 2 ** 32},
+                  t={'distinct_expected': True, 'wide_seed': True})
+            E('read_noise', ['@IMG', 7.5], {'seed': 3 + 2 ** 64}, t={'distinct_expected': True, 'wide_seed': True})
             for s in (1, 2, 3, 4, 5, 6):
                 events.append({'env': 'rng_seed', 'seed': s})
                 E('cosmic_rays', [[8, 8], [5e-6, 5e-6, 3e-6], 3.2 / (64 * 25e-12 * 4e4)], t={'unseeded': True})
